@@ -560,7 +560,7 @@ func checkC13(c *checkCtx) {
 					}
 				}
 				if p.MaxDuration != 0 {
-					rem := float64(p.MaxDuration - (ev.T - v.OpStart.T))
+					rem := float64(p.MaxDuration - (ev.T - ev.Start))
 					if hi > rem {
 						hi = rem
 						c.cov("c13.clamped_by_max_duration")
